@@ -743,11 +743,17 @@ func (in *Interp) step(g *Goroutine) int {
 	case *ssa.Call:
 		return in.doCall(g, fr, x, &x.Call, x)
 	case *ssa.Defer:
+		if in.mergeDepth > 0 && len(in.captures) == 0 {
+			// defers of frames created inside the region are fine; the region's own frame is rejected statically
+		}
 		d := in.prepareDeferred(fr, &x.Call)
 		fr.defers = append(fr.defers, d)
 		fr.pc++
 		return stOK
 	case *ssa.Go:
+		if in.mergeDepth > 0 {
+			panic(mergeFail{"go statement in merged region"})
+		}
 		if in.syncPoint(g) {
 			return stYield
 		}
@@ -758,8 +764,14 @@ func (in *Interp) step(g *Goroutine) int {
 		fr.pc++
 		return stOK
 	case *ssa.Send:
+		if in.mergeDepth > 0 {
+			panic(mergeFail{"channel send in merged region"})
+		}
 		return in.doSend(g, fr, x)
 	case *ssa.Select:
+		if in.mergeDepth > 0 {
+			panic(mergeFail{"select in merged region"})
+		}
 		return in.doSelect(g, fr, x)
 	case *ssa.Store:
 		addr := in.get(fr, x.Addr).(*PtrV)
@@ -771,6 +783,9 @@ func (in *Interp) step(g *Goroutine) int {
 		fr.pc++
 		return stOK
 	case *ssa.MapUpdate:
+		if in.mergeDepth > 0 {
+			panic(mergeFail{"map update in merged region"})
+		}
 		m := in.get(fr, x.Map).(*MapV)
 		if m.M == nil {
 			in.goPanic(g, &PanicV{Kind: "nilmap", Msg: "assignment to entry in nil map", Pos: in.posOf(x)})
@@ -784,6 +799,9 @@ func (in *Interp) step(g *Goroutine) int {
 		return stOK
 	case ssa.Value:
 		if u, ok := instr.(*ssa.UnOp); ok && u.Op == token.ARROW {
+			if in.mergeDepth > 0 {
+				panic(mergeFail{"channel receive in merged region"})
+			}
 			return in.doRecv(g, fr, u)
 		}
 		v, ok := in.evalValueInstr(g, fr, x)
